@@ -2,7 +2,7 @@
    sumbool map to OCaml's; N, Z, positive, nat stay the extracted inductive types. *)
 From Coq Require Import Extraction ExtrOcamlBasic.
 From Coq Require Import ZArith NArith List.
-From Lithium Require Import PyBase TcRecord Util Testcase Driver Minimize PyLines Markers Splitters SplitJs SplitAttrs StatusTypes Status Pairs Interest TempDir Cli Collapse Rewriters ReplaceProps.
+From Lithium Require Import PyBase TcRecord Util Testcase Driver Minimize PyLines Markers Splitters SplitJs SplitAttrs StatusTypes Status Pairs Interest TempDir Cli Collapse Rewriters ReplaceProps PairsMove.
 Extraction Language OCaml.
 Extraction "model.ml"
   Util.divide_rounding_up Util.is_power_of_two Util.largest_power_of_two_smaller_than
@@ -16,4 +16,5 @@ Extraction "model.ml"
   Splitters.split_line Splitters.split_char Splitters.split_symbol SplitJs.split_jsstr SplitAttrs.split_attrs
   Collapse.collapse_brace Collapse.collapse Cli.process_args Cli.early_table Cli.old_early_table
   Status.classify Status.reported_code Status.crashes_verdict Status.hangs_verdict Minimize.minimize Minimize.no_post
-  ReplaceProps.replace_properties_concrete ReplaceProps.props_of ReplaceProps.sub_word.
+  ReplaceProps.replace_properties_concrete ReplaceProps.props_of ReplaceProps.sub_word
+  PairsMove.pairs_move.
